@@ -21,6 +21,13 @@ CHECKS = {'C01': {'note': 'trusted: rustc MIR + trait resolution, PANIC_API/SAFE
          'technique': 'MIR callee/cast rules over comparison functions',
          'text': 'Decides the wiring of the comparison layer: != is !(==), one ord behind < <= > >=, no value-changing cast in ord/eq/type_prop, sort/min/max '
                  'use that order with strict replacement. Does not decide transitivity on doubles or the constant sets inside lt/le/gt/ge.'},
+ 'C06': {'note': 'trusted: rustc MIR; symex summaries; std Vec / HashMap / str contracts; lists unrolled to three elements, maps to two entries',
+         'technique': 'symbolic execution of the value layer into decision tables + template evaluation with extracted VM semantics',
+         'text': 'Decides, from decision tables obtained by symbolic execution of CelValue::index / in_ / Add (every path with its branch conditions and result expression): a list element is returned only '
+                 'under a bounds test of the very same index expression, with the sign rules of the statement (uint as is, int under i >= 0, size+i under size+i >= 0), without sign-changing casts, and every other '
+                 'index shape is an error; m[k] gives the stored value or the absent-field error; `in` is list membership, map key presence and substring with the right operand as haystack, otherwise an error; + '
+                 'appends right to left on strings, bytes and lists; size() is the length. List and map literals: the value the VM computes from the emitted layout and the folder term are both list_of / map_of of the '
+                 'operands in source order, and map_of inserts in order with replacement (last entry wins in both evaluators); map field access wins over a method. Element values themselves are not decided.'},
  'C07': {'note': 'trusted: rustc MIR + resolved callees; Vec IntoIter yields front to back; user-bound macros outside the analysed program',
          'technique': 'MIR skeleton extraction (operand expression trees + dominance + edge reachability) over the macro loop functions',
          'text': 'Decides the loop STRUCTURE shared by all/exists/exists_one/filter/map/reduce, not their equality with the defining folds: documented arity constants; the loop-variable name is '
@@ -97,8 +104,6 @@ CHECKS = {'C01': {'note': 'trusted: rustc MIR + trait resolution, PANIC_API/SAFE
 NOT_APPLICABLE = {'C02': "the deciding rule (level chain + token table extracted from the parse functions' syntax) needs the syntax-level extractor (synfacts/ETX of DESIGN.md "
         'section 2) which was not built in the time available; no sound cheaper structural clause was found that would not also fire on behaviour-preserving '
         'edits',
- 'C06': 'index bounds are covered as panic edges by C01 (table rows of CelValue::index); construction-order agreement of MkList/MkDict vs the folder needs the '
-        'template extractor (not built)',
  'C17': 'deciding that details flow on every builder path needs a dataflow over CompiledProg values in the parser (designed, not built). The defect is genuine '
         'and unrepaired: Program::from_source("size(y)").params() is empty (also x.f(y), [1].map(v, v+q), f\'{x}\')',
  'C18': 'span exactness depends on token positions at run time; the look-ahead typestate rule over the parser was designed but not built'}
